@@ -439,8 +439,13 @@ def evaluate_payload_template(input, context, template):
                     "States.ArrayUnique failed, arg[0] is not an array."
                 )
 
-            # Use set to get unique values from input then use list to convert back
-            return list(set(input_array))
+            # Keep the first occurrence of each value, in order. (A set would make
+            # the order depend on the hash seed and cannot hold arrays/objects.)
+            unique = []
+            for item in input_array:
+                if item not in unique:
+                    unique.append(item)
+            return unique
 
         def asl_intrinsic_Base64Encode(args):
             if len(args) != 1:
